@@ -69,6 +69,10 @@ def number_sweep():
     out = []
     for v in vals:
         out.append(('numsweep:%s' % v, 'x=%s\ny=[%s,-%s,%sj]\nz=a if %s else b\nw=%s .real\n' % (v, v, v, v, v, v)))
+    # negative literals: one token with its sign for the 2.x parser (Num(-0.0)), a unary minus on 3.x
+    for v in ['0.0', '0.', '.0', '0e0', '0', '0j', '0.0j', '1.5', '1e5', '1e-5', '1000000.0', '5e-324', '1e308', '1e999', '1', '255', '4294967296', '1.5j', '0x10', '1e16',
+              '12345678901234567.0', '0.1', '100.0', '1e22', '1e23']:
+        out.append(('negnum:%s' % v, 'x=-%s\ny=[-%s,-(%s),--%s,-%s**2,(-%s)**2]\nz=a if -%s else b\nw=(-%s).real\n' % ((v,) * 8)))
     return out
 
 
@@ -160,6 +164,11 @@ def run(args, rep):
     side2 = []
     for v in versions:
         reqs = []
+        if v == '2.7':
+            # the literal modules that are also Python 2 programs (what does not parse there is not judged)
+            for tid, text in lits:
+                if tid.startswith(('numsweep:', 'negnum:', 'num:')):
+                    reqs.append({'op': 'roundtrip', 'id': tid + '|' + v, 'src_b64': inputs.b64(text.encode('utf-8')), 'as_bytes': False})
         if v != '2.7':
             for tid, text in texts:
                 if tid.startswith('chain:') and v not in deep_versions:
